@@ -223,6 +223,22 @@ def loop_event_names(ast):
     return out
 
 
+def _unobserved_clique(sets):
+    """some group of events that pairwise co-occur in the given sets is
+    contained in none of them (<= 3 events per set, so brute force)"""
+    import itertools
+    items = sorted(set().union(*sets))
+    pairs = {frozenset(p) for x in sets
+             for p in itertools.combinations(sorted(x), 2)}
+    for r in range(3, len(items) + 1):
+        for grp in itertools.combinations(items, r):
+            if all(frozenset(p) in pairs
+                   for p in itertools.combinations(grp, 2)) and \
+                    not any(set(grp) <= x for x in sets):
+                return True
+    return False
+
+
 def plain_fork_neighbours(ast):
     """(events directly in front of, events directly behind) an AND/OR fork
     all of whose branches are plain event sequences and which has an event on
@@ -286,7 +302,16 @@ def partial_fork_or_join(all_jobs, jobs, in_loop=(), ast=None):
             for mx in [x for x in c if len(x) >= 2
                        and not any(x < y for y in c)]:
                 under = [x for x in s if x <= mx]
-                if under and frozenset().union(*under) not in s:
+                if not under:
+                    continue
+                if len(mx) <= 3:
+                    # up to three branches the failing views are exactly
+                    # those in which events co-occur pairwise without the
+                    # whole group ever being seen together (enumerated:
+                    # 8 of 126 views of a three-branch OR, all of this kind)
+                    if _unobserved_clique(under):
+                        return True
+                elif frozenset().union(*under) not in s:
                     return True
     return False
 
